@@ -11,7 +11,7 @@ ID = "C01"
 LEVEL = "exploration"
 LEVEL_TEXT = ("Complete enumeration of the finite product mnemonic (all 92 ISA mnemonics) x 41 operand shapes (all legal "
               "shapes and every malformed bracket/index combination, plus 20 operand texts with mismatched or unbalanced brackets) x size suffix x boundary values (and, with .b/.w, values beyond 24 bits) x letter case, plus "
-              "operand-expression variants, each assembled as a one-instruction program by the real assembler and judged "
+              "operand-expression variants and complete value sweeps (every value 0..0x1FFFF and around 2^24 for 8 representative cells, thorough), each assembled as a one-instruction program by the real assembler and judged "
               "against an independent 65c816 opcode matrix: defined => exact bytes, undefined => rejected, supported set "
               "=> still accepted. The suite pins ~10 encodings; this decides every table cell.")
 LEVEL_NOTE = ("Trusted: the opcode matrix mc/ref/isa_matrix.py (written from the ISA, cross-checked in DESIGN Appendix A) and the "
@@ -53,7 +53,9 @@ def supported():
 def bound(tier):
     vals = VALUES_T if tier == "thorough" else VALUES_Q
     return (f"{len(isa.MNEMONICS)} mnemonics x {len(isa.ALL_SHAPES)} shapes x 4 suffixes x {len(vals)} values x 2 case styles; "
-            f"expression forms x supported cells ({len(supported())})")
+            f"expression forms x supported cells ({len(supported())}); every operand value in "
+            + ("0..0x1FFFF and 0xFF0000..0x10007FF" if tier == "thorough" else "0..0x3FF, 0xFE00..0x101FF and 0xFFFE00..0x10001FF")
+            + f" x 4 suffixes for {len(SWEEP_CELLS)} representative cells")
 
 
 def shape_id(shape):
@@ -66,6 +68,41 @@ def cases(tier, seed):
             yield ("lit", mn, style, tier)
     for mn in isa.MNEMONICS:
         yield ("expr", mn, "lower", tier)
+    # value sweeps: EVERY operand value of a range for a few representative cells (width choice and truncation)
+    for ci in range(len(SWEEP_CELLS)):
+        for lo, hi in sweep_ranges(tier):
+            for a in range(lo, hi, 0x800):
+                yield ("sweep", ci, a, min(a + 0x800, hi))
+
+
+SWEEP_CELLS = [("lda", ("", "", "")), ("lda", ("#", "", "")), ("sta", ("", "", "x")), ("jmp", ("", "", "")), ("adc", ("(", "", "y")),
+               ("ldx", ("", "", "y")), ("pea", ("", "", "")), ("jsr", ("(", "x", ""))]
+
+
+def sweep_ranges(tier):
+    if tier == "thorough":
+        return [(0, 0x20000), (0xFF0000, 0x1000800)]
+    return [(0, 0x400), (0xFE00, 0x10200), (0xFFFE00, 0x1000200)]
+
+
+def run_sweep(ci, lo, hi):
+    mn, shape = SWEEP_CELLS[ci]
+    viol = []
+    outcomes = set()
+    n = nt = 0
+    for value in range(lo, hi):
+        for suffix in SUFFIXES:
+            if value > 0xFFFFFF and suffix in ("", ".l"):
+                continue  # no width holds it / .l of more than 24 bits: no claim
+            src = f"{mn}{suffix} {isa.render_operand(shape, hexlit(value, False))}"
+            out = impl.assemble(src)
+            n += 1
+            t, tag = judge(mn, shape, suffix, value, src, out, viol)
+            nt += t
+            outcomes.add("sweep-" + tag)
+        if len(viol) > 40:
+            break
+    return {"evals": n, "nt_count": nt, "outcome": sorted(outcomes), "violations": viol[:40]}
 
 
 def describe(case, res):
@@ -269,6 +306,8 @@ def run_expr(mn, tier):
 
 
 def run_case(case):
+    if case[0] == "sweep":
+        return run_sweep(case[1], case[2], case[3])
     kind, mn, style, tier = case
     if kind == "lit":
         return run_lit(mn, style, tier)
